@@ -250,6 +250,10 @@ var c01Semantic = []string{
 	"<?php foo(&$a);", "<?php list() = $a;", "<?php use A\\{B, C};", "<?php try {} ", "<?php $a = [1, 2 => &$b, ...$c];",
 	"<?php interface I extends A, B { const X = 1; }", "<?php foreach (f() as $k => list($a, $b)) {}", "<?php foreach ([1] as &$k => list($a)) : endforeach;",
 	"<?php declare(ticks=1): enddeclare;", "<?php class A { use B { c as protected; d::e insteadof f; } }",
+	// a grammar-action error for a construct whose body holds a syntax error (the action runs when the construct is reduced)
+	"<?php foreach ($a as &$k => $v) { $x = ; }", "<?php foreach ($a as &$k => $v): $x = ; $y = 1 +; endforeach;",
+	"<?php trait T extends A { function f() { 1 +; } }", "<?php trait T implements I { public $a = ; }",
+	"<?php trait T extends A implements I { function f() { foreach ($a as &$k => $v) { ) } } }",
 }
 
 // c01Ladder — space D: the step count must grow linearly with the input (a deterministic reading of
